@@ -13,64 +13,67 @@
 (*   and variants: the same for every '-' / '_' respelling of the name.    *)
 (* Fields that do not apply are "".                                        *)
 (*                                                                         *)
-(* Every invariant comes with its witness set, so that a violation names   *)
-(* the datasets involved and can be replayed on the real loader.           *)
+(* Every invariant is "its witness set is empty", so that a violation      *)
+(* names the datasets involved and can be replayed on the real loader.     *)
 (***************************************************************************)
 EXTENDS Naturals, Sequences, FiniteSets
 
 CONSTANT Registry
 
-Idx       == 1..Len(Registry)
-R(i)      == Registry[i]
-Remote    == {i \in Idx : R(i).kind = "remote"}
-Bundled   == {i \in Idx : R(i).kind = "bundled"}
-Live      == {i \in Remote : R(i).call.resolves /\ R(i).call.loader = "remote"}   \* remote names that reach the remote loader
 SlotKey(c) == <<c.folder, c.slot>>
 
-\* every documented name resolves, and to the kind of loader its table promises
-UnresolvedW  == {R(i).name : i \in {j \in Idx : ~R(j).call.resolves}}
-AllResolve   == UnresolvedW = {}
-WrongKindW   == {R(i).name : i \in {j \in Idx : R(j).call.resolves /\
-                                    R(j).call.loader # (IF R(j).kind = "remote" THEN "remote" ELSE "resources")}}
-KindsAgree   == WrongKindW = {}
+(***************************************************************************)
+(* Witness sets.  (Written over a parameter bound once: TLC rebuilds the   *)
+(* constant Registry at every mention, and the clash sets mention it       *)
+(* thousands of times.)                                                    *)
+(***************************************************************************)
+Witnesses(reg) ==
+    LET Idx     == 1..Len(reg)
+        Remote  == {i \in Idx : reg[i].kind = "remote"}
+        Bundled == {i \in Idx : reg[i].kind = "bundled"}
+        \* remote names that reach the remote loader
+        Live    == {i \in Remote : reg[i].call.resolves /\ reg[i].call.loader = "remote"}
+        Names(P) == {<<reg[p[1]].name, reg[p[2]].name>> : p \in P}
+        Clash(F(_)) == Names({q \in Live \X Live : q[1] < q[2] /\ F(reg[q[1]].call) = F(reg[q[2]].call)})
+    IN [ \* every documented name resolves ...
+         AllResolve |-> {reg[i].name : i \in {j \in Idx : ~reg[j].call.resolves}},
+         \* ... to the kind of loader its table promises
+         KindsAgree |-> {reg[i].name : i \in {j \in Idx : reg[j].call.resolves /\
+                            reg[j].call.loader # (IF reg[j].kind = "remote" THEN "remote" ELSE "resources")}},
+         \* no two remote datasets share a URL, a pinned checksum, a remote file name or a cache slot
+         UrlInjective        |-> Clash(LAMBDA c : c.url),
+         ChecksumInjective   |-> Clash(LAMBDA c : c.checksum),
+         RemoteFileInjective |-> Clash(LAMBDA c : c.remoteFile),
+         SlotInjective       |-> Clash(LAMBDA c : SlotKey(c)),
+         \* every remote loader verifies the pinned checksum and names all parts of its record
+         RecordsComplete |-> {reg[i].name : i \in {j \in Live :
+                                 \/ ~reg[j].call.validate
+                                 \/ "" \in {reg[j].call.url, reg[j].call.checksum, reg[j].call.remoteFile,
+                                            reg[j].call.folder, reg[j].call.slot}}},
+         \* bundled names read distinct resource files (information only: not part of C18's statement)
+         FilesInjective |-> Names({q \in Bundled \X Bundled : /\ q[1] < q[2]
+                                                              /\ reg[q[1]].call.resolves /\ reg[q[2]].call.resolves
+                                                              /\ reg[q[1]].call.file = reg[q[2]].call.file}),
+         \* '-' / '_' spelling variants resolve to the same record
+         VariantsAgree |-> UNION {{<<reg[i].name, reg[i].variants[k].name>> :
+                                     k \in {n \in 1..Len(reg[i].variants) : reg[i].variants[n].call # reg[i].call}}
+                                  : i \in Idx},
+         NamesDistinct |-> {reg[i].name : i \in {j \in Idx : \E k \in Idx : k # j /\ reg[k].name = reg[j].name}},
+         counts |-> [documented |-> Len(reg), bundled |-> Cardinality(Bundled), remote |-> Cardinality(Remote),
+                     live_remote |-> Cardinality(Live)] ]
 
-\* no two remote datasets share a URL, a pinned checksum, a remote file name or a cache slot
-Clash(F(_))  == {<<R(p[1]).name, R(p[2]).name>> :
-                    p \in {q \in Live \X Live : q[1] < q[2] /\ F(R(q[1]).call) = F(R(q[2]).call)}}
-SharedUrlW        == Clash(LAMBDA c : c.url)
-SharedChecksumW   == Clash(LAMBDA c : c.checksum)
-SharedRemoteFileW == Clash(LAMBDA c : c.remoteFile)
-SharedSlotW       == Clash(LAMBDA c : SlotKey(c))
-UrlInjective        == SharedUrlW = {}
-ChecksumInjective   == SharedChecksumW = {}
-RemoteFileInjective == SharedRemoteFileW = {}
-SlotInjective       == SharedSlotW = {}
+Report == Witnesses(Registry)
+Counts == Report.counts
 
-\* every remote loader verifies the pinned checksum and names all four parts of its record
-IncompleteW == {R(i).name : i \in {j \in Live : \/ ~R(j).call.validate
-                                                \/ "" \in {R(j).call.url, R(j).call.checksum, R(j).call.remoteFile,
-                                                           R(j).call.folder, R(j).call.slot}}}
-RecordsComplete == IncompleteW = {}
-
-\* bundled names read distinct resource files
-SharedFileW == {<<R(p[1]).name, R(p[2]).name>> :
-                   p \in {q \in Bundled \X Bundled : /\ q[1] < q[2]
-                                                     /\ R(q[1]).call.resolves /\ R(q[2]).call.resolves
-                                                     /\ R(q[1]).call.file = R(q[2]).call.file}}
-FilesInjective == SharedFileW = {}
-
-\* '-' / '_' spelling variants resolve to the same record
-VariantWitness == UNION {{<<R(i).name, R(i).variants[k].name>> :
-                              k \in {n \in 1..Len(R(i).variants) : R(i).variants[n].call # R(i).call}} : i \in Idx}
-VariantsAgree == VariantWitness = {}
-
-\* sizes promised by the shipped descriptions: a registry that lost names is not "all documented names"
-Counts == [documented |-> Len(Registry), bundled |-> Cardinality(Bundled), remote |-> Cardinality(Remote),
-           live_remote |-> Cardinality(Live)]
-NamesDistinct == \A i, j \in Idx : i # j => R(i).name # R(j).name
-
-Report == [AllResolve |-> UnresolvedW, KindsAgree |-> WrongKindW, UrlInjective |-> SharedUrlW,
-           ChecksumInjective |-> SharedChecksumW, RemoteFileInjective |-> SharedRemoteFileW,
-           SlotInjective |-> SharedSlotW, RecordsComplete |-> IncompleteW, FilesInjective |-> SharedFileW,
-           VariantsAgree |-> VariantWitness]
+\* the invariants of the registry: every witness set is empty
+NamesDistinct       == Report.NamesDistinct = {}
+AllResolve          == Report.AllResolve = {}
+KindsAgree          == Report.KindsAgree = {}
+UrlInjective        == Report.UrlInjective = {}
+ChecksumInjective   == Report.ChecksumInjective = {}
+RemoteFileInjective == Report.RemoteFileInjective = {}
+SlotInjective       == Report.SlotInjective = {}
+RecordsComplete     == Report.RecordsComplete = {}
+FilesInjective      == Report.FilesInjective = {}
+VariantsAgree       == Report.VariantsAgree = {}
 =============================================================================
